@@ -115,6 +115,22 @@ def run(ctx):
     rng = ctx.rng()
     quick = ctx.quick
     nproj = 30 if quick else 300
+    # ---- the last sentence of the statement, on the Tag type itself: truthy exactly when value is not None and error is None - for
+    # every value / error pair a caller can hold (falsy values are values; an empty error text is an error), however the Tag was built
+    if ctx.shard == 0:
+        import pycomm3
+        T = pycomm3.Tag
+        values = [None, 0, 0.0, False, "", [], {}, b"", 1, -1, True, "x", [0], {"a": None}, b"\x00", float("nan")]
+        errors = [None, "", " ", "error", 0, False, [], "None"]
+        for v in values:
+            for e in errors:
+                for how in ("positional", "keyword", "_make", "_replace"):
+                    t = (T("tag", v, "DINT", e) if how == "positional" else T(tag="tag", value=v, type="DINT", error=e) if how == "keyword"
+                         else T._make(("tag", v, "DINT", e)) if how == "_make" else T("tag", 5, "DINT", None)._replace(value=v, error=e))
+                    res.ev()
+                    res.seen("tag-truthiness", type(v).__name__, repr(e), how)
+                    if bool(t) != (v is not None and e is None):
+                        res.violation("tag-truthiness", f"bool(Tag(value={v!r}, error={e!r})) [{how}] is {bool(t)}; documented: value is not None and error is None", {"value": repr(v), "error": repr(e)})
     for pi in range(nproj):  # WRAPPED
         try:
             cfg = CONFIGS[(pi * ctx.nshards + ctx.shard) % len(CONFIGS)]
